@@ -204,7 +204,9 @@ func CreateTable(s *sim.Src, name string, fancy int, wantWithoutRowid bool, othe
 		pkPlan = 1 + s.Draw(2, "pkplan2")
 	}
 	pkCol := s.Draw(len(cols), "pkcol")
-	if pkPlan == 1 && s.Chance(1, 2, "intpk") {
+	// (also for a table-level PRIMARY KEY: "id INTEGER, ..., PRIMARY KEY (id DESC)" is a
+	// rowid alias in a rowid table and a descending integer key in a WITHOUT ROWID table)
+	if (pkPlan == 1 && s.Chance(1, 2, "intpk")) || (pkPlan == 2 && s.Chance(1, 3, "intpk-table-level")) {
 		n := 7
 		if fancy >= 9 {
 			// type arguments: only the schema check (C10) builds these, see known_findings.json
